@@ -45,6 +45,7 @@ class Ctx:
         self.opts = opts
         self.counters = {}
         self.violations = []
+        self.prefer = []
         self.covers = set()
         self.notes = {}
         self.sym_inputs = []      # (name, term) registered by the harness for witnesses
@@ -214,6 +215,11 @@ class Ctx:
 
     # -- property checking
     def get_model(self, *extra):
+        # `prefer`: soft constraints of the harness on the *choice* of the model that becomes a replayable scenario (e.g.
+        # keep ages away from a threshold the compiled crate evaluates against the real clock); never part of the path
+        # condition or of an obligation
+        if self.prefer and self._check(*(list(extra) + list(self.prefer))):
+            return self.solver.model()
         if self._check(*extra):
             return self.solver.model()
         return None
@@ -230,6 +236,9 @@ class Ctx:
             return True
         if prop is False:
             self._check()
+        if self.prefer:
+            if not self._check(*([neg] + list(self.prefer))):
+                self._check(neg)
         m = self.solver.model()
         w = None
         if witness is not None:
